@@ -199,7 +199,16 @@ def call_spec_fn(self, name, e, st):
         inside = []
         for z in extra:
             (inside if _mentions(z, {p.get_id()}) else []).append(z) if _mentions(z, {p.get_id()}) else st.assume(z)
-        return bool_val(z3.ForAll([p], z3.Implies(z3.And(off <= p, p < off + n, *inside), bz), patterns=[z3.Select(arr, p)]))
+        qbody = z3.Implies(z3.And(off <= p, p < off + n, *inside), bz)
+        try:
+            return bool_val(z3.ForAll([p], qbody, patterns=[z3.Select(arr, p)]))
+        except z3.Z3Exception:
+            # the array term is not admissible as a pattern (it contains an if-then-else after a merge): name the array (a
+            # definitional equality with a fresh constant) so that its reads can still serve as the trigger
+            a = fresh("eacharr", arr.sort())
+            st.assume(a == arr)
+            qb2 = z3.substitute(qbody, (z3.Select(arr, p), z3.Select(a, p)))
+            return bool_val(z3.ForAll([p], qb2, patterns=[z3.Select(a, p)]))
     if name == "implies":
         a = self.truth(self.ev1(e.args[0], st)[0], st)
         b = self.truth(self.ev1(e.args[1], st)[0], st)
